@@ -361,6 +361,7 @@ func jsonKindOfType(t types.Type) string {
 type nonNilCtx struct {
 	p    *Prog
 	memo map[*ssa.Function]int // 1 yes, 2 no, 3 in progress
+	open map[*ssa.Phi]bool     // φ-nodes under evaluation: a loop-carried slice is non-nil when it enters non-nil and every round keeps it so
 }
 
 func (n *nonNilCtx) fnNonNil(fn *ssa.Function) bool {
@@ -407,6 +408,14 @@ func (n *nonNilCtx) value(v ssa.Value, depth int) bool {
 		}
 		return n.value(x.X, depth+1)
 	case *ssa.Phi:
+		if n.open[x] {
+			return true
+		}
+		if n.open == nil {
+			n.open = map[*ssa.Phi]bool{}
+		}
+		n.open[x] = true
+		defer delete(n.open, x)
 		for _, e := range x.Edges {
 			if !n.value(e, depth+1) {
 				return false
